@@ -206,20 +206,25 @@ def rt_source(s):
   lines = ["from typing import Any, Callable, Literal, Optional, TypeVar, Union",
            "T = TypeVar('T')"]
   decls = []
+  # a bare type parameter is only valid inside a signature that binds it
+  no_t = lambda x: "int" if x == "T" else x
+  ret_f = t3 if "T" in (t1, t2) else no_t(t3)
   if ext:
     lines += ["import mmm", "import zzz.sub" + (" as aaa" if ext == 2 else "")]
     mod = "aaa" if ext == 2 else "zzz.sub"
-    decls.append("e: Union[%s.X, mmm.Y, %s]" % (mod, t0))
+    decls.append("e: Union[%s.X, mmm.Y, %s]" % (mod, no_t(t0)))
     decls.append("def h(x: %s.X, y: Union[%s.X, mmm.Y]) -> mmm.Y: ..." % (mod, mod))
-  decls.append("x: %s" % t0)
+  decls.append("x: %s" % no_t(t0))
   if shape >= 1:
-    decls.append("def f(a: %s, b: %s = ...) -> %s: ..." % (t1, t2, t3))
+    decls.append("def f(a: %s, b: %s = ...) -> %s: ..." % (t1, t2, ret_f))
   if shape >= 2:
     for k in range(nsig):
-      decls.append("@overload\ndef g(a: %s) -> %s: ..." % (RT_TYPES[k], t1))
+      decls.append("@overload\ndef g(a: %s) -> %s: ..." % (RT_TYPES[k], no_t(t1)))
   if shape >= 3:
-    decls.append("y: %s" % t2)
+    decls.append("y: %s" % no_t(t2))
   if cls >= 1:
+    # class A is not generic: a bare type parameter inside it would be an invalid stub
+    t0, t1, t2, t3 = ("int" if x == "T" else x for x in (t0, t1, t2, t3))
     body = ["  c: %s" % t3, "  def m(self, p: %s) -> %s: ..." % (t0, t1)]
     if cls >= 2:
       body.append("  @staticmethod\n  def s(q: %s) -> None: ..." % t2)
